@@ -83,10 +83,12 @@ def leafNameAt : List Leaf → Int → Int → Option String
   | l :: l2 :: ls, base, i =>
     if l.nBins > i then some (l.name base i) else leafNameAt (l2 :: ls) (base + l.nBins) (i - l.nBins)
 
-def BinM.nameAt (b : BinM) (base i : Int) : Option String :=
+/-- array bins are numbered from the start of the enclosing top-level bin model (F32 repair), so
+    the coverpoint-wide base is not used -/
+def BinM.nameAt (b : BinM) (_base i : Int) : Option String :=
   match b with
-  | .leaf l => some (l.name base i)
-  | .coll _ bs => leafNameAt bs base i
+  | .leaf l => some (l.name 0 i)
+  | .coll _ bs => leafNameAt bs 0 i
 
 def binNameAt : List BinM → Int → Int → Option String
   | [], _, _ => none
@@ -151,11 +153,11 @@ def mkCollection (name : String) (rl : RL) (nBins : Int) : Option BinM :=
       | none => none
       | some (rem, bins) => (addLeftover bins rem).map (BinM.coll name ·)
   else
-    let rec noPart : RL → Nat → List Leaf
+    let rec noPart : RL → Int → List Leaf
       | [], _ => []
       | r :: rs, idx =>
-        (if r.1 = r.2 then Leaf.val (name ++ "[" ++ toString idx ++ "]") r.1 else Leaf.arr name r.1 r.2)
-          :: noPart rs (idx + 1)
+        if r.1 = r.2 then Leaf.val (name ++ "[" ++ toString idx ++ "]") r.1 :: noPart rs (idx + 1)
+        else Leaf.arr name r.1 r.2 :: noPart rs (idx + (r.2 - r.1 + 1))
     some (BinM.coll name (noPart rl 0))
 
 /-! ### bin specifications of `coverage.py` -/
